@@ -200,6 +200,12 @@ def _persist_election(job):
         v[pev < 100] = v[pev < 100] // 2
         cur[c] = v
     cur["percent_expected_vote"] = pev
+    if job["gate"] == "fail" and k == 0:
+        # the very start of the night: every unit is in the feed, nothing has been counted anywhere (all zero) - the
+        # live results are saved all the same before the run ends in the too-few-units error (seeded change C18_E)
+        for c in ("results_turnout", "results_dem", "results_gop"):
+            cur[c] = 0
+        cur["percent_expected_vote"] = 0
     if boot:
         pre = synth.with_margin_features(pre)
     return pre, cur, states
@@ -233,7 +239,7 @@ def run_persist(job):
     scratch = tempfile.mkdtemp(prefix="controla_cwd_", dir=SCRATCH_PARENT)
     os.chdir(scratch)
     del synth.PUTS[:]
-    out = {"id": job["id"], "outcome": "ok", "natsum_outcome": NA}
+    out = {"id": job["id"], "outcome": "ok", "natsum_outcome": NA, "nothing_counted": bool((cur["results_turnout"] == 0).all())}
     try:
         c = ModelClient()
         try:
